@@ -121,6 +121,22 @@ theorem getD_eq_getElem (l : List Chan) (i : Nat) (h : i < l.length) : l.getD i 
 theorem getElem_mem_take (l : List Chan) (i a : Nat) (hi : i < a) (ha : a ≤ l.length) : l[i]'(by omega) ∈ l.take a :=
   List.mem_take_iff_getElem.mpr ⟨i, by omega, rfl⟩
 
+theorem idxOf_lt_of_mem_take (l : List Chan) (a : Nat) (c : Chan) (h : c ∈ l.take a) : l.idxOf c < a := by
+  have e : l.idxOf c = (l.take a).idxOf c := by
+    conv => lhs; rw [← List.take_append_drop a l]
+    rw [List.idxOf_append, if_pos h]
+  rw [e]
+  have := List.idxOf_lt_length_iff.mpr h
+  simp at this
+  omega
+
+theorem nodup_snoc {α : Type} (l : List α) (x : α) : (l ++ [x]).Nodup ↔ l.Nodup ∧ x ∉ l := by
+  rw [List.nodup_append]
+  simp only [List.nodup_cons, List.not_mem_nil, not_false_eq_true, List.nodup_nil, and_self, List.mem_singleton, true_and]
+  constructor
+  · rintro ⟨h1, h2⟩; exact ⟨h1, fun hx => h2 x hx x rfl rfl⟩
+  · rintro ⟨h1, h2⟩; exact ⟨h1, fun a ha b hb e => h2 (hb ▸ e ▸ ha)⟩
+
 /-- on a chronological list, `[a, b] <+ l` says "an `a` happens strictly before a `b`" -/
 theorem sub2_snoc {α : Type} (l : List α) (a b e : α) : List.Sublist [a, b] (l ++ [e]) ↔ List.Sublist [a, b] l ∨ (a ∈ l ∧ b = e) := by
   rw [List.sublist_append_iff]
